@@ -128,7 +128,11 @@ def run(ctx):
             # networkx removals on a JobShopGraph's .graph
             if isinstance(n, ast.Call) and isinstance(n.func, ast.Attribute) and n.func.attr in ("remove_node", "remove_nodes_from", "remove_edge", "remove_edges_from", "clear"):
                 recv = n.func.value
-                if isinstance(recv, ast.Attribute) and recv.attr == "graph" and ctx.types.is_a(fi.module, recv.value, g.qualname):
+                if isinstance(recv, ast.Name):
+                    recv = ctx.norm.xexpr(fi, recv)  # `graph = self.graph; graph.remove_node(i)`
+                if isinstance(recv, ast.Attribute) and recv.attr == "graph" and (
+                    ctx.types.is_a(fi.module, recv.value, g.qualname) or (isinstance(recv.value, ast.Name) and recv.value.id == "self" and fi.cls is g)
+                ):
                     n_sites += 1
                     if fi is rm or only_called_from(ctx, fi, {rm}):
                         chk.ok("R17.a", fi.qualname, fi.loc(n), f"graph.{n.func.attr} inside remove_node")
@@ -138,6 +142,10 @@ def run(ctx):
             tgt = None
             if isinstance(n, ast.Assign):
                 for t in n.targets:
+                    if isinstance(t, ast.Subscript) and isinstance(t.value, ast.Name):
+                        base = ctx.norm.xexpr(fi, t.value)  # `removed = self.removed_nodes; removed[i] = True`
+                        if isinstance(base, ast.Attribute) and base.attr == "removed_nodes":
+                            t = ast.copy_location(ast.Subscript(value=base, slice=t.slice, ctx=t.ctx), t)
                     if isinstance(t, ast.Subscript) and isinstance(t.value, ast.Attribute) and t.value.attr == "removed_nodes":
                         tgt = (t, n.value)
                     elif isinstance(t, ast.Attribute) and t.attr == "removed_nodes":
@@ -168,10 +176,10 @@ def run(ctx):
     chk.floor("R17.a", n_sites, 4, "graph-removal / mask-write sites")
     # remove_node shape
     rm_raw = rm
-    rm = ctx.norm.flat(rm)
+    rm = ctx.norm.dealiased(ctx.norm.flat(rm))  # `graph = self.graph` spelled out again
     p = rm_raw.params[1]
     body = ast.unparse(rm.node)
-    del_main = [n for n in own_nodes(rm.node) if isinstance(n, ast.Call) and ast.unparse(n.func) == "self.graph.remove_node" and ast.unparse(n.args[0]) == p]
+    del_main = [n for n in own_nodes(rm.node) if isinstance(n, ast.Call) and ctx.norm.xtext(rm, n.func) == "self.graph.remove_node" and n.args and ast.unparse(n.args[0]) == p]
     def flipped_ids():
         """What the mask writes `self.removed_nodes[i] = True` of the flattened
         remove_node cover: ("id", text) for a direct index, ("each", iterable
@@ -260,6 +268,22 @@ def run(ctx):
             chk.violation("R17.c", upd, c, f"operation nodes are removed for `{at}`, not for the completed operations: nodes of operations still running (or not even scheduled) disappear", loc=upd.loc(c))
         else:
             chk.violation("R17.c", upd, c, f"operation nodes are removed for `{at}` on `{ast.unparse(garg) if garg is not None else '?'}`", loc=upd.loc(c))
+    # ... and on every path: no early exit of update() before the removal (an
+    # "nothing can have completed" shortcut is wrong - dispatching an operation
+    # that starts later can still advance the clock)
+    eng_u = ctx.engine(relevant=lambda e: e.kind == "call" and util in (e.data.get("targets") or []), max_depth=2)
+    for p_ in eng_u.paths(upd, upd_cls):
+        if p_.outcome == "raise":
+            continue
+        if not any(e.kind == "call" and util in (e.data.get("targets") or []) for e in p_.events):
+            last = p_.events[-1] if p_.events else None
+            chk.violation(
+                "R17.c", upd, last.node if last is not None else None,
+                "a path through update() returns without removing the completed operations' nodes: operations that "
+                "complete because the clock advanced stay in the graph until some later dispatch",
+                loc=last.loc if last is not None else upd.loc(), path=p_.describe(),
+            )
+            break
     # the helper: node id = operation id, skip already removed, remove once
     fors = [n for n in own_nodes(util.node) if isinstance(n, ast.For)]
     if len(fors) != 1 or ast.unparse(fors[0].iter) != util.params[1]:
